@@ -11,8 +11,10 @@ OUT = os.path.join(VERIF, "out")
 EVID = os.path.join(VERIF, "evidence")
 KNOWN = os.path.join(VERIF, "known_findings.jsonl")
 HBIN = os.path.join(HARNESS, "target", "debug", "fvharness")
+HARNESS_OFF = os.path.join(VERIF, "harness-off")
+HBIN_OFF = os.path.join(HARNESS_OFF, "target", "debug", "fvharness-off")
 
-ALL_FIXES = ["FixRecv", "FixFifo", "FixCancelDefault", "FixEmptyToken", "FixStackFull", "FixForceStart", "FixReentrant"]
+ALL_FIXES = ["FixRecv", "FixFifo", "FixCancelDefault", "FixEmptyToken", "FixStackFull", "FixForceStart", "FixReentrant", "FixInSpan", "FixExitOrder"]
 
 
 class ToolError(Exception):
@@ -41,7 +43,13 @@ def current_fixes():
 
 
 # ----------------------------------------------------------------------------- harness build
-def build_harness():
+def build_harness(off=False):
+    if off:
+        return build_one(HARNESS_OFF)
+    return build_one(HARNESS)
+
+
+def build_one(HARNESS):
     t0 = time.time()
     env = dict(os.environ, CARGO_NET_OFFLINE="true")
     # the lock file of the repository pins the dependency closure that is in the offline registry
@@ -79,7 +87,7 @@ DEFAULTS = dict(
     threads=[1], born=[1], K=8, QCap=10, SCap=10, cancelable=False, enabled=True, ready=True,
     menu=[], prog=None, smp=[True], cross=True, trackcut=False,
     MaxOps=4, MaxSpans=3, MaxRoots=1, MaxTraces=1, MaxScopes=2, MaxLocal=2, MaxAtt=2, MaxLs=1,
-    MaxCycles=2, MaxFlush=0,
+    MaxCycles=2, MaxFlush=0, MaxFuts=1, MaxPolls=3, adapters=["fut"], inner=["none", "ls", "ev", "ctx"],
 )
 
 
@@ -107,6 +115,8 @@ MCMenu == {tla_val(set(c['menu']))}
 MCProg == {progtxt}
 MCSmp == {tla_val(set(c['smp']))}
 MCCheck == {tla_val(set(check))}
+MCAdapters == {tla_val(set(c['adapters']))}
+MCInner == {tla_val(set(c['inner']))}
 ====
 """
     cfg = ["CONSTANTS", "  Threads <- MCThreads", "  Born <- MCBorn", "  Menu <- MCMenu", "  Prog <- MCProg",
@@ -114,7 +124,8 @@ MCCheck == {tla_val(set(check))}
            f"  K = {c['K']}", f"  QCap = {c['QCap']}", f"  SCap = {c['SCap']}",
            f"  Cancelable = {tla_val(c['cancelable'])}", f"  Enabled = {tla_val(c['enabled'])}", f"  Ready = {tla_val(c['ready'])}",
            f"  CrossThread = {tla_val(c['cross'])}", f"  TrackCut = {tla_val(c['trackcut'])}"]
-    for k in ["MaxOps", "MaxSpans", "MaxRoots", "MaxTraces", "MaxScopes", "MaxLocal", "MaxAtt", "MaxLs", "MaxCycles", "MaxFlush"]:
+    cfg += ["  AdapterKinds <- MCAdapters", "  InnerKinds <- MCInner"]
+    for k in ["MaxOps", "MaxSpans", "MaxRoots", "MaxTraces", "MaxScopes", "MaxLocal", "MaxAtt", "MaxLs", "MaxCycles", "MaxFlush", "MaxFuts", "MaxPolls"]:
         cfg.append(f"  {k} = {c[k]}")
     for f in ALL_FIXES:
         cfg.append(f"  {f} = {tla_val(f in fixes)}")
@@ -290,6 +301,8 @@ def harness_opts(c):
         o.append("--cancelable")
     if not c.get("ready", True):
         o.append("--not-ready")
+    if not c.get("enabled", True):
+        o.append("--disabled")
     if c.get("op_sleep_us"):
         o += ["--op-sleep-us", str(c["op_sleep_us"])]
     o += ["--ring", str(c.get("K", 8)), "--queue", str(c.get("QCap", 10)), "--stack", str(c.get("SCap", 10))]
@@ -312,7 +325,7 @@ def replay(behaviours, c, tag, seed):
             for i, b in todo:
                 f.write(json.dumps(dict(id=i, steps=b["steps"], prefix=b.get("prefix", False))) + "\n")
         outp = os.path.join(d, "trace-%d.ndjson" % part)
-        cmd = [HBIN, "steer", "--in", inp, "--out", outp, "--seed", str(seed)] + harness_opts(c)
+        cmd = [HBIN if c.get("enabled", True) else HBIN_OFF, "steer", "--in", inp, "--out", outp, "--seed", str(seed)] + harness_opts(c)
         try:
             r = subprocess.run(cmd, stdout=subprocess.PIPE, stderr=subprocess.PIPE, text=True, timeout=1800)
         except subprocess.TimeoutExpired:
